@@ -10,7 +10,6 @@
 
    Go constructs that can fail are modelled with explicit failure values:
      backends[next] (index)          -> RPanic when out of range
-     rand.Int() % len(backs)         -> RPanic when len = 0
      hash % uint64(totalWeight)      -> RPanic when totalWeight = 0
      for { ... } in simpleBalance    -> fuel; exhaustion = RFuel
    `for _, b := range list` loops cannot fail and are modelled by total list access. *)
@@ -128,7 +127,7 @@ Definition wlc_simple (s : dyn) : dyn * res :=
   match oc with
   | None => (s1, RErr 1)
   | Some [j] => (s1, ROk [bid (getb s1 j)])
-  | Some [] => (s1, RPanic)                         (* rand.Int() % 0 *)
+  | Some [] => (s1, RErr 1)                         (* guard added by the fix: no candidate left *)
   | Some c => (s1, ROk (map (fun j => bid (getb s1 j)) c))
   end.
 
@@ -161,7 +160,9 @@ Definition sticky (h : Z) (s : dyn) : dyn * res :=
   | _ => if total =? 0 then (s1, RPanic) else (s1, sticky_walk c s1 (h mod total))
   end.
 
-(* ---- simpleBalance: the reset-and-rescan loop.  next/start are positions; start mirrors brr.next ---- *)
+(* ---- simpleBalance: the reset-and-rescan loop.  next/start are positions; start mirrors brr.next.
+   Code after /repo commit "fix: BalanceRR simpleBalance never spins or panics ...": empty list -> error,
+   allBackendDown is cleared only by an available backend of POSITIVE weight and re-armed after a reset. ---- *)
 Definition move_next (next : Z) (n : Z) : Z := if next + 1 >=? n then 0 else next + 1.
 Definition reset_cur (s : dyn) : dyn :=
   (map (fun b => mkBe (bid b) (bw b) (bw b) (bav b) (bcn b)) (fst s), snd s).
@@ -180,17 +181,20 @@ Fixpoint simple_loop (fuel : nat) (s : dyn) (next start : Z) (all_down : bool) {
         (setb s i (add_cur (-1)), move_next next n, ROk [bid b])
       else
         let s1 := tick s in           (* the probe failed; the environment may move before the next probe *)
-        let all_down' := if bav b && negb (bw b =? 0) then false else all_down in
+        let all_down' := if bav b && (bw b >? 0) then false else all_down in
         let next' := move_next next n in
         if next' =? start then
           if all_down' then (s1, start, RErr 1)
-          else simple_loop f (reset_cur s1) 0 0 all_down'
+          else simple_loop f (reset_cur s1) 0 0 true
         else simple_loop f s1 next' start all_down'
   end.
 Definition simple (fuel : nat) (s : dyn) (next : Z) : dyn * Z * res :=
-  simple_loop fuel s next next true.
-(* probes after which a still running call is known to run forever (see SimpleRRProofs) *)
-Definition simple_fuel (s : dyn) : nat := length (snd s) + 3 * length (fst s) + 3.
+  match fst s with
+  | [] => (s, next, RErr 1)
+  | _ => simple_loop fuel s next next true
+  end.
+(* probes within which every call returns (SimpleRRProofs.simple_total) *)
+Definition simple_fuel (s : dyn) : nat := length (snd s) + 2 * length (fst s).
 
 (* ---- the balancer object: list, brr.next (sorted flag is implied: sorting a sorted list is the identity) ---- *)
 Record brr := mkBrr { backends : list be; nxt : Z }.
